@@ -13,7 +13,15 @@
       nil error value counts as an error there, and the Connection resolver, which tests with
       [isNil], then sees "no error" and a nil edge slice: a made-up error "unexpected non-slice
       type <nil> for edges"), [join] uses [isNil] (a typed nil error is no error).  After the
-      fourth repair the loop uses [isNil] too.  [F] = that repair is present.
+      fourth repair the loop uses [isNil] too.
+    - a result that is neither nil nor a slice nor (synchronously) a promise — a string, a map, a
+      promise that a promise resolved to: on the pinned tree [reflect.Value.IsNil] / [Index] panic
+      on it (on the promise path inside [join]'s goroutine: the process dies; a channel that
+      happens to be empty is even taken for an empty result).  After the fifth repair
+      ([appendEdgeSlice]) it is the error "unexpected non-slice type ... for edges", as in the
+      generic [completeConnection]; on the promise path it is found by [join]'s callback, i.e.
+      only after every promise has resolved without an error.
+      [F] = the fourth and fifth repair are present.
     - pagination.go [Connection] / [completeConnection]: [totalCount] resolves to whatever
       [config.ResolveTotalCount] answers; the field is NonNull, so its error nulls the connection
       field; it is not called when the edges could not be fetched (except in the lazy first/last
@@ -28,21 +36,24 @@ Import ListNotations.
 Open Scope Z_scope.
 
 (** the getter's second result for one call *)
-Inductive gerr := NoErr | Err (id : Z) | TypedNilErr.
+Inductive gerr := NoErr | Err (id : Z) | TypedNilErr
+                | BadValue.      (* no error, but the value is neither nil nor a slice (nor, synchronously, a promise) *)
 
 (** how the i-th getter call answers: hand-over as in [TimeModel.pres], plus the error *)
 Record xpres := { xp : pres; xerr : gerr }.
 
 (** what a promise resolves to, as [join] sees it (after its [isNil(result.Error)] test) *)
-Inductive presult := PVal (r : gresult) | PErr (id : Z).
+Inductive presult := PVal (r : gresult) | PErr (id : Z) | PBad.
 
 (** the result of the loop over the queries; [issued] = number of getter calls made *)
 Inductive cres :=
 | CErr (id : Z) (issued : nat)      (* a synchronous error *)
 | CBogus (issued : nat)             (* pinned tree: a synchronous typed nil error ends the loop *)
+| CNonSlice (issued : nat)          (* a synchronous non-slice value: an error (5th repair) *)
+| CPanic (issued : nat)             (* ... a panic inside reflect before it *)
 | COk (es : list edge) (prs : list presult).
 
-Inductive xres := XRErr (id : Z) | XRBogus | XRPanic | XROk (l : list edge).
+Inductive xres := XRErr (id : Z) | XRBogus | XRNonSlice | XRPanic | XROk (l : list edge).
 
 (** [ResolveTotalCount]'s answer (directly or through a promise: the executor awaits it) *)
 Inductive tcres := TCVal (n : Z) | TCErr (id : Z).
@@ -51,7 +62,7 @@ Inductive tcres := TCVal (n : Z) | TCErr (id : Z).
 Record sel := { want_info : bool; want_total : bool }.
 
 (** the error that nulls the connection field *)
-Inductive ferr := EGetter (id : Z) | ETotal (id : Z) | EBogus.
+Inductive ferr := EGetter (id : Z) | ETotal (id : Z) | EBogus | ENonSlice.
 
 Inductive xoutcome :=
 | XArgError                                   (* rejected arguments *)
@@ -69,6 +80,7 @@ Section XModel.
   Definition promised (p : xpres) (l : list edge) : presult :=
     match xerr p with
     | Err id => PErr id
+    | BadValue => PBad
     | _ => PVal (present (xp p) l)    (* join: isNil(result.Error) *)
     end.
 
@@ -96,6 +108,7 @@ Section XModel.
           match xerr p with
           | Err id => CErr id (S i)
           | TypedNilErr => if F then go_on else CBogus (S i)
+          | BadValue => if F then CNonSlice (S i) else CPanic (S i)
           | NoErr => go_on
           end
     end.
@@ -105,21 +118,28 @@ Section XModel.
     match prs with
     | [] => None
     | PErr id :: _ => Some id
-    | PVal _ :: r => first_perr r
+    | _ :: r => first_perr r
     end.
   Definition pvals (prs : list presult) : list gresult :=
-    flat_map (fun p => match p with PVal r => [r] | PErr _ => [] end) prs.
+    flat_map (fun p => match p with PVal r => [r] | _ => [] end) prs.
+  Definition has_pbad (prs : list presult) : bool :=
+    existsb (fun p => match p with PBad => true | _ => false end) prs.
 
   Definition xresolve (ps : nat -> xpres) (qs : list query) : xres * nat :=
     match xcollect ps 0 qs with
     | CErr id n => (XRErr id, n)
     | CBogus n => (XRBogus, n)
+    | CNonSlice n => (XRNonSlice, n)
+    | CPanic n => (XRPanic, n)
     | COk es prs =>
         (match prs with
          | [] => XROk es
          | _ => match first_perr prs with
                 | Some id => XRErr id
-                | None => match join_cb V es (pvals prs) with Some l => XROk l | None => XRPanic end
+                | None =>
+                    (* the callback: appendEdgeSlice on every value, in order *)
+                    if has_pbad prs then (if F then XRNonSlice else XRPanic)
+                    else match join_cb V es (pvals prs) with Some l => XROk l | None => XRPanic end
                 end
          end, length qs)
     end.
@@ -151,6 +171,9 @@ Section XModel.
              if lazy then None else Some O)
         | (XRBogus, n) =>
             (XFieldError (EBogus :: (if lazy then total_err else [])), firstn n qs,
+             if lazy then None else Some O)
+        | (XRNonSlice, n) =>
+            (XFieldError (ENonSlice :: (if lazy then total_err else [])), firstn n qs,
              if lazy then None else Some O)
         | (XRPanic, _) => (XPanic, qs, None)
         | (XROk fetched, _) =>
@@ -218,6 +241,7 @@ Fixpoint jadvance (fuel : nat) (prs : list presult) (mail : list nat) (k : nat) 
             match r with
             | PErr id => JErr id
             | PVal v => jadvance fuel' prs mail (S k) (acc ++ [v])
+            | PBad => jadvance fuel' prs mail (S k) acc     (* carried along; the callback rejects it *)
             end
           else JWait k acc
       end
